@@ -47,6 +47,8 @@ type srvLogCore struct {
 	rejected []string
 	approved []approved
 	reasons  map[string]int // why peers were disconnected
+	// proposedAt: when this node's consensus service (as primary) sent its latest PrepareRequest for a height
+	proposedAt map[uint32]time.Time
 	// undecodable: a peer was dropped because a message it sent could not be decompressed (the transport never alters bytes)
 	undecodable []string
 }
@@ -73,6 +75,7 @@ var srvInfoWatched = map[string]string{
 	"MPT is in sync":          "statesync_mpt_in_sync",
 	"blocks are in sync":      "statesync_blocks_in_sync",
 	"changing dbft view":      "view_changed",
+	"missing tx":              "consensus_missing_tx",
 	"sending RecoveryMessage": "recovery_message_sent",
 	"sending RecoveryRequest": "recovery_request_sent",
 }
@@ -107,6 +110,12 @@ func (c *srvLogCore) Write(e zapcore.Entry, fs []zapcore.Field) error {
 		m := fieldMap(fs)
 		c.mu.Lock()
 		c.rejected = append(c.rejected, fmt.Sprintf("index=%v chainHeight=%v mode=%v error=%v", m["index"], m["chainHeight"], m["mode"], m["error"]))
+		c.mu.Unlock()
+	case e.Message == "sending PrepareRequest":
+		m := fieldMap(fs)
+		h, _ := m["height"].(uint32)
+		c.mu.Lock()
+		c.proposedAt[h] = time.Now() // (the bubble's clock)
 		c.mu.Unlock()
 	case e.Message == "approving block":
 		m := fieldMap(fs)
@@ -205,7 +214,7 @@ func (s *srvSim) newSrvNode(idx, kind int, l Local) *snode {
 		sim.Harnessf("cannot create node N%d: %v", idx, err)
 	}
 	v := &snode{idx: idx, kind: kind, n: n, local: l, ownBlocks: map[uint32]string{}}
-	v.lc = &srvLogCore{inner: n.logs, info: map[string]int{}, reasons: map[string]int{}}
+	v.lc = &srvLogCore{inner: n.logs, info: map[string]int{}, reasons: map[string]int{}, proposedAt: map[uint32]time.Time{}}
 	return v
 }
 
